@@ -683,7 +683,8 @@ class Statement(metaclass=classes):
         if label is None:
             return tab
         s = str(label)
-        if isfix:
+        if isfix and len(s) < 5:
+            # A label may occupy columns 1-5: only a shorter one is indented.
             s = " " + s
         tab = tab[len(s) :]
         if not tab:
